@@ -8,7 +8,8 @@ findings: finding probes: (finding id, backend, unit, variant)
 
 PROPS = {
     "C01": dict(verus=["U-TS"], kani=[], bounded=[], findings=[]),
-    "C09": dict(verus=["U-TS"], kani=[], bounded=[], findings=[]),
+    "C09": dict(verus=["U-TS", "U-SM"], kani=[], bounded=[], findings=[]),
+    "C02": dict(verus=["U-SM"], kani=[], bounded=[], findings=[]),
     "C10": dict(verus=["U-TS"], kani=[], bounded=[], findings=[]),
     "C11": dict(verus=["U-TS"], kani=[], bounded=[], findings=[("F-C11-1", "verus", "U-TS", "F-C11-1")]),
     "C12": dict(verus=["U-TS"], kani=[], bounded=[], findings=[]),
